@@ -1,7 +1,241 @@
-import Invoke.Model.Program
-import Invoke.Lemmas.ParserWF
+import Invoke.Lemmas.ProgramParse
 import Invoke.Generated.Program
-/-! # C18 (stub, work in progress) -/
+/-! # C18 — core options mean the same anywhere; task tokens and the remainder stay intact
+
+Property theorems only; helper lemmas live in `Invoke/Lemmas/ProgramParse.lean`.
+Model: `Invoke/Model/Program.lean` (`corePass` ∘ `taskPass` ∘ `updateCore` ∘ `overrides`) on top of the argv
+machine `Invoke/Model/Parser.lean`; the core-argument table is regenerated from the real
+`Program(...).initial_context` on every run (`Invoke/Generated/Program.lean`).
+
+FULL STATEMENT of the placement property (not proved in this generality, validated by the metamorphic
+correspondence through the real `Program`, see `harness/props/c18.py`):
+
+    theorem core_flag_placement_invariant (o : core option ≠ help/list) (s : spelling of o) (calls : task invocations)
+        (k j : position j inside call k's argument list, at an item boundary — the task is not waiting for a value —
+               and call k's task declares no flag spelled like the head of s) :
+      (programParse core reg (s ++ flat calls)).map effect = (programParse core reg (insert s at (k, j))).map effect
+      where effect r = (overrides r.core, r.tasks)
+
+What IS proved: the single-step content of that statement for every machine state "between items"
+(`core_flag_placement_invariant_partial`, `core_value_flag_placement_partial`): the token sets exactly the same
+core argument to exactly the same value as it does in the core context, and touches neither the current task
+context nor the finished ones nor the unparsed list — for ANY task signature, including tasks with still
+missing positionals (DESIGN §4 #27).  Missing for the full theorem: the induction over the remaining items
+(commutation of the core-argument update with every later step), glued/`=`/combined spellings through `presplit`
+(#9) and `updateCore`.  Concrete instances of the full statement are checked by `decide` below. -/
 namespace Inv
-theorem c18_stub : True := trivial
+open M
+
+/-! ## Remainder -/
+
+/-- REMAINDER VERBATIM (parser).  Everything after the first `--` becomes the remainder, joined by single spaces,
+    and influences nothing else: the parse of `body ++ "--" :: rem` is the parse of `body` with the remainder filled in
+    (same contexts, same unparsed tokens, same error). -/
+theorem remainder_verbatim (initial : Option Ctx) (registry : List Ctx) (ign : Bool) (body rem : List Tok)
+    (hb : ['-', '-'] ∉ body) :
+    parseArgv initial registry ign (body ++ ['-', '-'] :: rem) = withRemainder rem (parseArgv initial registry ign body) :=
+  parseArgv_remainder initial registry ign body rem hb
+
+/-- REMAINDER VERBATIM (Program).  Core values, task contexts, unparsed tokens and errors of the two-pass parse
+    do not depend on the tokens after `--`; `remainder = " ".join(rem)`. -/
+theorem program_remainder_verbatim (core : Ctx) (registry : List Ctx) (body rem : List Tok) (hb : ['-', '-'] ∉ body) :
+    programParse core registry (body ++ ['-', '-'] :: rem) = withRemainderP rem (programParse core registry body) :=
+  programParse_remainder core registry body rem hb
+
+/-- in particular two different remainders give the same core values and task contexts -/
+theorem remainder_influences_nothing (core : Ctx) (registry : List Ctx) (body rem rem' : List Tok) (hb : ['-', '-'] ∉ body)
+    (r r' : ProgResult) (h : programParse core registry (body ++ ['-', '-'] :: rem) = .ok r)
+    (h' : programParse core registry (body ++ ['-', '-'] :: rem') = .ok r') :
+    r.core = r'.core ∧ r.tasks = r'.tasks ∧ r.unparsed = r'.unparsed ∧
+    r.remainder = [' '].intercalate rem ∧ r'.remainder = [' '].intercalate rem' := by
+  rw [programParse_remainder core registry body rem hb] at h
+  rw [programParse_remainder core registry body rem' hb] at h'
+  cases hp : programParse core registry body with
+  | error e => simp [hp, withRemainderP] at h
+  | ok r0 =>
+    simp only [hp, withRemainderP, Except.ok.injEq] at h h'
+    subst h; subst h'
+    exact ⟨rfl, rfl, rfl, rfl, rfl⟩
+
+/-! ## Unparsed tokens -/
+
+/-- UNPARSED IS A SUFFIX (any parser).  If a parse succeeds, the unparsed list is empty, or the tokens before `--`
+    split as `pre ++ t :: rest` where `t` is the first token (partly) stored as unknown and
+    `unparsed = ps ++ rest`: every token after `t` reaches the next stage verbatim, in order, none dropped or
+    duplicated; `ps` are the stored pieces of `t`, and `ps = [t]` whenever `t` is not flag-like (e.g. a task name). -/
+theorem unparsed_is_suffix (initial : Option Ctx) (registry : List Ctx) (ign : Bool) (argv : List Tok) (r : PResult)
+    (h : parseArgv initial registry ign argv = .ok r) :
+    r.unparsed = [] ∨ ∃ pre t rest ps, bodyOf argv = pre ++ t :: rest ∧ r.unparsed = ps ++ rest ∧ ps ≠ [] ∧
+      (isFlag t = false → ps = [t]) :=
+  parseArgv_unparsed initial registry ign argv r h
+
+/-- the same for `Program`: what the core pass hands to task parsing (`Program.core.unparsed`) -/
+theorem program_unparsed_is_suffix (core : Ctx) (registry : List Ctx) (argv : List Tok) (r : ProgResult)
+    (h : programParse core registry argv = .ok r) :
+    r.unparsed = [] ∨ ∃ pre t rest ps, bodyOf argv = pre ++ t :: rest ∧ r.unparsed = ps ++ rest ∧ ps ≠ [] ∧
+      (isFlag t = false → ps = [t]) := by
+  obtain ⟨r1, h1, hu, _⟩ := programParse_unparsed core registry argv r h
+  rw [hu]
+  exact parseArgv_unparsed (some core) [] true argv r1 h1
+
+/-- once the machine is in state "unknown" a token is never split, interpreted or dropped -/
+theorem unknown_state_stores_verbatim (n : Nat) (m m' : M) (t : Tok) (hu : m.st = .unknown ∧ m.unparsed ≠ [])
+    (h : procTok (n + 1) m t = .ok m') : m'.st = .unknown ∧ m'.unparsed = m.unparsed ++ [t] :=
+  procTok_unknown n m m' t hu h
+
+/-! ## Placement of a core option (one-step statements, any task signature) -/
+
+/-- PLACEMENT, boolean core flag (partial: one step, no pending flag).  Handled inside a task context — whatever the
+    task's own arguments, even with positionals still missing — an unshadowed boolean core flag has exactly the effect
+    it has in the core context: the same core argument gets the same value; the task context, the finished contexts
+    and the unparsed list are untouched. -/
+theorem core_flag_placement_invariant_partial (mc mt : M) (c ic : Ctx) (tok : Tok) (i : Nat) (a a' : Arg)
+    -- the machine before any task …
+    (hstc : mc.st = .context) (hcic : mc.curIsInitial = true) (hic : mc.initial = some ic) (hflc : mc.flag = none)
+    -- … and inside task context `c`, between two items
+    (hstt : mt.st = .context) (hcit : mt.curIsInitial = false) (hct : mt.cur = some c) (hit : mt.initial = some ic)
+    (hflt : mt.flag = none)
+    -- the task does not declare the spelling, and it is not a task name
+    (hcf : assoc? tok c.flags = none) (hcinv : assoc? tok c.inverse = none) (hl : mt.lookupCtx tok = none)
+    -- `tok` is a boolean core flag other than --help
+    (hf : assoc? tok ic.flags = some i) (ha : ic.args[i]? = some a) (hh : a.spec.names.headD [] ≠ "help".toList)
+    (ht : a.takesValue = false) (hs : a.setValue (.b true) = .ok a') :
+    ∃ mc' mt', handle mc tok = .ok mc' ∧ handle mt tok = .ok mt' ∧
+      mc'.initial = some { ic with args := ic.args.set i a' } ∧ mt'.initial = mc'.initial ∧
+      mt'.cur = mt.cur ∧ mt'.done = mt.done ∧ mt'.unparsed = mt.unparsed ∧ mt'.st = mt.st :=
+  ⟨_, _, core_bool_in_core mc ic tok i a a' hstc hcic hic hflc hf ha ht hs,
+    core_bool_in_task mt c ic tok i a a' hstt hcit hct hit hflt hcf hcinv hl hf ha hh ht hs, rfl, rfl, rfl, rfl, rfl, rfl⟩
+
+/-- PLACEMENT, value-taking core flag, spaced spelling (partial: two steps).  Inside a task context the flag token
+    makes the machine point at the CORE argument and the following token becomes its value; the task context
+    is untouched even when the task still lacks positionals (so `inv t2 -T 5 posval` works). -/
+theorem core_value_flag_placement_partial (m : M) (c ic : Ctx) (tok v : Tok) (i : Nat) (a a' : Arg)
+    (hst : m.st = .context) (hci : m.curIsInitial = false) (hc : m.cur = some c) (hi : m.initial = some ic) (hfl : m.flag = none)
+    (hcf : assoc? tok c.flags = none) (hcinv : assoc? tok c.inverse = none) (hl : m.lookupCtx tok = none)
+    (hvf : assoc? v c.flags = none) (hvinv : assoc? v c.inverse = none)
+    (hf : assoc? tok ic.flags = some i) (ha : ic.args[i]? = some a) (hh : a.spec.names.headD [] ≠ "help".toList)
+    (ht : a.takesValue = true) (hr : a.raw = none) (ho : a.spec.optional = false) (hk : a.spec.kind ≠ .list)
+    (hs : a.setValue (.s v) = .ok a') :
+    ∃ m1 m2, handle m tok = .ok m1 ∧ handle m1 v = .ok m2 ∧
+      m2.initial = some { ic with args := ic.args.set i a' } ∧ m2.cur = m.cur ∧ m2.done = m.done ∧ m2.unparsed = m.unparsed := by
+  have h1 := core_value_flag_in_task m c ic tok i a hst hci hc hi hfl hcf hcinv hl hf ha hh ht
+  have h2 := core_value_received_in_task { m with flag := some (.initial, i), flagGotValue := false } c ic v i a a'
+      hst hci hc hi rfl hvf hvinv ha ht hr ho hk hs
+  exact ⟨_, _, h1, h2, rfl, rfl, rfl, rfl⟩
+
+/-- SHADOWING.  If the task itself declares the spelling, the task receives it — a boolean flag is set on the TASK
+    context — and the core context is unchanged, whether or not the core declares the same spelling. -/
+theorem shadowing_flag_wins_partial (m : M) (c : Ctx) (tok : Tok) (i : Nat) (a a' : Arg) (hst : m.st = .context)
+    (hci : m.curIsInitial = false) (hc : m.cur = some c) (hfl : m.flag = none)
+    (hf : assoc? tok c.flags = some i) (ha : c.args[i]? = some a) (ht : a.takesValue = false)
+    (hs : a.setValue (.b true) = .ok a') :
+    ∃ m', handle m tok = .ok m' ∧ m'.initial = m.initial ∧ m'.cur = some { c with args := c.args.set i a' } ∧
+      m'.flag = some (.cur, i) :=
+  ⟨_, shadow_bool_in_task m c tok i a a' hst hci hc hfl hf ha ht hs, rfl, rfl, rfl⟩
+
+/-- SHADOWING, value-taking flag: the machine points at the TASK's argument (the next token is its value), core unchanged -/
+theorem shadowing_value_flag_wins_partial (m : M) (c : Ctx) (tok : Tok) (i : Nat) (a : Arg) (hst : m.st = .context)
+    (hci : m.curIsInitial = false) (hc : m.cur = some c) (hfl : m.flag = none)
+    (hf : assoc? tok c.flags = some i) (ha : c.args[i]? = some a) (ht : a.takesValue = true) :
+    ∃ m', handle m tok = .ok m' ∧ m'.initial = m.initial ∧ m'.cur = m.cur ∧ m'.flag = some (.cur, i) :=
+  ⟨_, shadow_value_in_task m c tok i a hst hci hc hfl hf ha ht, rfl, rfl, rfl⟩
+
+/-! ## The core-argument table regenerated from the repository -/
+
+def kindOfString (s : String) : Kind :=
+  if s = "int" then .int else if s = "bool" then .bool else if s = "list" then .list else .str
+
+def defaultOfString (s : String) : PVal :=
+  match s.toList with
+  | ['n', 'o', 'n', 'e'] => .none
+  | ['b', ':', '1'] => .b true
+  | ['b', ':', '0'] => .b false
+  | 'i' :: ':' :: ds => match pyInt? ds with | some n => .i n | none => .none
+  | 's' :: ':' :: v => .s v
+  | _ => .l []
+
+def specOfRow (r : List String × String × String × Bool × Bool × Bool) : ArgSpec :=
+  { names := r.1.map String.toList, kind := kindOfString r.2.1, default := defaultOfString r.2.2.1,
+    positional := r.2.2.2.1, optional := r.2.2.2.2.1, incrementable := r.2.2.2.2.2 }
+
+/-- the core context exactly as `Program(namespace=…).initial_context` builds it -/
+def coreCtx : Ctx := match Ctx.ofSpecs none [] (Generated.coreArgs.map specOfRow) with | .ok c => c | .error _ => Ctx.empty none
+/-- `Program().initial_context` (task-runner mode: plus --collection, --no-dedupe, --search-root) -/
+def runnerCtx : Ctx :=
+  match Ctx.ofSpecs none [] ((Generated.coreArgs ++ Generated.taskRunnerArgs).map specOfRow) with | .ok c => c | .error _ => Ctx.empty none
+
+def Ctx.kindOf (c : Ctx) (n : String) : Option (Kind × Bool × Bool) :=
+  (c.args.find? (fun a => a.spec.names.headD [] = n.toList)).map (fun a => (a.spec.kind, a.spec.optional, a.takesValue))
+
+/-- the real core-argument table is accepted by `add_arg`, is well-formed in the sense of the C07 theorems, has no
+    positional and no inverse flag, `help` is the optional-value string flag the `handle` special case expects, and the
+    arguments `update_config` reads have the kinds `overrides` assumes -/
+theorem core_table_wellformed :
+    (Ctx.ofSpecs none [] (Generated.coreArgs.map specOfRow)).toBool = true ∧
+    (Ctx.ofSpecs none [] ((Generated.coreArgs ++ Generated.taskRunnerArgs).map specOfRow)).toBool = true ∧
+    specWF (some coreCtx) [] = true ∧ specWF (some runnerCtx) [] = true ∧
+    coreCtx.positional = [] ∧ coreCtx.inverse = [] ∧ runnerCtx.inverse = [] ∧
+    coreCtx.kindOf "help" = some (.str, true, true) ∧
+    coreCtx.kindOf "echo" = some (.bool, false, false) ∧ coreCtx.kindOf "dry" = some (.bool, false, false) ∧
+    coreCtx.kindOf "pty" = some (.bool, false, false) ∧ coreCtx.kindOf "warn-only" = some (.bool, false, false) ∧
+    coreCtx.kindOf "hide" = some (.str, false, true) ∧ coreCtx.kindOf "command-timeout" = some (.int, false, true) ∧
+    runnerCtx.kindOf "no-dedupe" = some (.bool, false, false) := by decide
+
+/-! ## Concrete instances of the FULL placement statement and non-vacuity (evaluated by the kernel) -/
+
+def c18Ctx (name : String) (specs : List ArgSpec) : Ctx :=
+  match Ctx.ofSpecs (some name.toList) [] specs with | .ok c => c | .error _ => Ctx.empty (some name.toList)
+
+/-- `def t2(c, pos, verbose=False)` with auto short flags -p and -v (so -p shadows --pty's -p); `def t1(c, flag=False, name="n")` -/
+def c18Reg : List Ctx :=
+  [c18Ctx "t2" [{ names := ["pos".toList, "p".toList], positional := true },
+                { names := ["verbose".toList, "v".toList], kind := .bool, default := .b false }],
+   c18Ctx "t1" [{ names := ["flag".toList, "f".toList], kind := .bool, default := .b false },
+                { names := ["name".toList, "n".toList], default := .s "n".toList }]]
+
+def argvOf (ws : List String) : List Tok := ws.map String.toList
+
+/-- what the property compares: configuration overrides and the values delivered to the tasks -/
+def effect (r : Except Err ProgResult) : Option (Overrides × List (List PVal)) :=
+  match r with
+  | .ok x => some (overrides x.core, x.tasks.map (fun c => c.args.map Arg.value))
+  | .error _ => none
+
+/-- boolean core flag: before the tasks = after the task name = between/after its arguments (incl. before a missing positional, #27) -/
+example : effect (programParse coreCtx c18Reg (argvOf ["-e", "t2", "val", "-v"])) =
+          effect (programParse coreCtx c18Reg (argvOf ["t2", "-e", "val", "-v"])) ∧
+          effect (programParse coreCtx c18Reg (argvOf ["-e", "t2", "val", "-v"])) =
+          effect (programParse coreCtx c18Reg (argvOf ["t2", "val", "--echo", "-v"])) ∧
+          (effect (programParse coreCtx c18Reg (argvOf ["t2", "val", "-v", "-e"]))).map (fun e => e.1.echo) = some true := by decide
+/-- value-taking core flag in every spelling, inside a task (glued short form: #9) -/
+example : effect (programParse coreCtx c18Reg (argvOf ["-T", "5", "t1", "--flag"])) =
+          effect (programParse coreCtx c18Reg (argvOf ["t1", "-T5", "--flag"])) ∧
+          effect (programParse coreCtx c18Reg (argvOf ["-T", "5", "t1", "--flag"])) =
+          effect (programParse coreCtx c18Reg (argvOf ["t1", "--flag", "--command-timeout=5"])) ∧
+          (effect (programParse coreCtx c18Reg (argvOf ["t1", "-T=5"]))).map (fun e => e.1.timeout) = some (.i 5) := by decide
+/-- combined short booleans inside a task -/
+example : effect (programParse coreCtx c18Reg (argvOf ["-ew", "t1"])) = effect (programParse coreCtx c18Reg (argvOf ["t1", "-we"])) ∧
+          (effect (programParse coreCtx c18Reg (argvOf ["t1", "-we"]))).map (fun e => (e.1.echo, e.1.warn)) = some (true, true) := by decide
+/-- shadowing: `-p` after `t2` is t2's own flag for `pos` (it takes the next token), the core `pty` stays off -/
+example : (effect (programParse coreCtx c18Reg (argvOf ["t2", "-p", "val"]))).map (fun e => (e.1.pty, e.2)) =
+            some (false, [[.s "val".toList, .b false]]) ∧
+          (effect (programParse coreCtx c18Reg (argvOf ["-p", "t2", "val"]))).map (fun e => e.1.pty) = some true := by decide
+/-- remainder and unparsed tokens on a concrete command line -/
+example : (programParse coreCtx c18Reg (argvOf ["-e", "t1", "--flag", "t2", "x", "--", "--echo", "y  z", "--", "t1"])).toOption.map
+            (fun r => (r.unparsed, r.remainder)) =
+          some (argvOf ["t1", "--flag", "t2", "x"], "--echo y  z -- t1".toList) := by decide
+/-- hypotheses of `core_flag_placement_invariant_partial` are satisfiable: `-e` in `t2`'s context with `pos` still missing -/
+example : ∃ i a a', assoc? "-e".toList coreCtx.flags = some i ∧ coreCtx.args[i]? = some a ∧
+    a.spec.names.headD [] ≠ "help".toList ∧ a.takesValue = false ∧ a.setValue (.b true) = .ok a' ∧
+    assoc? "-e".toList (c18Reg.headD (Ctx.empty none)).flags = none ∧
+    assoc? "-e".toList (c18Reg.headD (Ctx.empty none)).inverse = none ∧
+    (c18Reg.headD (Ctx.empty none)).missingPositional ≠ [] := by
+  refine ⟨5, _, _, by decide, rfl, by decide, by decide, rfl, by decide, by decide, by decide⟩
+/-- hypotheses of `shadowing_flag_wins_partial`: `-v` is t2's own boolean flag -/
+example : ∃ i a a', assoc? "-v".toList (c18Reg.headD (Ctx.empty none)).flags = some i ∧
+    (c18Reg.headD (Ctx.empty none)).args[i]? = some a ∧ a.takesValue = false ∧ a.setValue (.b true) = .ok a' :=
+  ⟨1, _, _, by decide, rfl, by decide, rfl⟩
+/-- hypothesis of `remainder_verbatim` -/
+example : ['-', '-'] ∉ argvOf ["-e", "t1", "--flag"] := by decide
+
 end Inv
